@@ -14,14 +14,38 @@ CHECKS = {
          EXPL + "The hook exposes (or injects) the momenta and uniforms each step consumed, so the proposal and the accept decision of every row become predictable; tolerances are derived from the measured sensitivity of the reference trajectory.",
          "Closed-form gradients of the harness targets are the trusted base; ill-conditioned (chaotic) rows are checked structurally only (old-or-proposed bitwise, decision).",
          "DESIGN.md §5 C02"),
+ "C03": ("proptest NUTS transitions (forced step sizes incl. diverging / immediately U-turning ones, real warm-up runs, direct calls of build_tree/stop_criterion/leapfrog through verif wrappers) traced through the verif hook and compared with an independent f64 implementation of Hoffman-Gelman Algorithm 6: structure of every doubling (layer A), eligibility of the new state (layer B), exact selection by replaying the chain's generator (layer C)",
+         EXPL + "Layer A/B need no assumption about random draws (they rebuild the tree from the traced momentum, slice level, step size and directions); layer C additionally replays a clone of the chain's generator in Algorithm 6's draw order and checks the selected point and the generator's final position.",
+         "Decisions whose margin is below 2e4*eps*(leapfrog steps) are counted ambiguous; trees with NaN-energy leaves are excluded from the acceptance-statistic comparison; layer C trusts Algorithm 6's draw order.",
+         "DESIGN.md §5 C03"),
+ "C04": ("proptest histories of run() calls on one NUTSChain (warm-up lengths, re-opened warm-up, leading run(1,0)), every traced transition compared with a one-step-ahead f64 dual-averaging reference; bitwise freeze checks; independent implementation of the initial step-size heuristic; acceptance-statistic calibration runs",
+         EXPL + "The reference is driven by the acceptance statistic each transition itself reported, so the recurrence is checked at every step of every history; freezing is a bitwise relation.",
+         "An evaluation budget in the harness target bounds the work (the library has no tree-depth cap); after exhaustion the rest of a history is skipped. Shrinkage point of a re-opened warm-up: ln(10 eps0) or ln(10 current eps) accepted.",
+         "DESIGN.md §5 C04"),
  "C05": ("proptest histories of single-chain Gibbs steps with a recording Conditional, order-agnostic sweep model; exact one-step kernel by enumerating scripted conditional outcomes on small joint tables (pi P = pi)",
          EXPL + "The recording conditional sees every call (index, given state) the library makes; the kernel section turns 'leaves the joint invariant' into a matrix identity checked to 1e-12.",
          "Scan order is not fixed by the statement: any permutation accepted.",
          "DESIGN.md §5 C05"),
+ "C06": ("proptest sampler configurations (MH symmetric / asymmetric / discrete, Gibbs, HMC, NUTS; f32/f64) on targets with closed-form moments; 48-64 independent chains started from exact target draws; z-tests with between-chain standard errors at |z| <= 6.5 and confirm-by-rerun (4x work, fresh seeds, same sign)",
+         EXPL + "This is the only check that sees wrong draw distributions (momentum variance, slice level, selection probabilities, Hastings correction) that the transition-level oracles take as given.",
+         "Statistical: biases below a few percent of a posterior sd are not detectable; 'for all seeds/targets' is sampled.",
+         "DESIGN.md §5 C06"),
+ "C07": ("proptest configurations (sampler, seed incl. wrapping ones, chains, pool sizes 1..16, 0..3 concurrent companion samplers, progress on/off, spinning/yielding targets); differential oracle: every repetition of a freshly built sampler is bitwise equal to the first; different seeds differ; panics (seed overflow) are violations",
+         EXPL + "Each repetition rebuilds the sampler from the same inputs (the MH proposal prototype is sometimes left unseeded), so hidden global or OS-seeded state shows up as a bitwise difference.",
+         "Thread schedules are perturbed (pool size, companions, yields), not enumerated. Built with overflow checks on, as a user's debug build.",
+         "DESIGN.md §5 C07"),
+ "C08": ("proptest (sampler, n_chains 2..64, seeded/unseeded, seeds incl. 0 and powers of two) with all chains started from one state; oracles: pairwise distinct proposal noise / generator states / momenta / uniforms, proposal generator never in an acceptance generator's state, seeds handed to an observable user proposal pairwise distinct",
+         EXPL + "Generator states are compared directly (next outputs of clones), so sharing is detected without statistics.",
+         "Unseeded distinctness is probabilistic (2^-64 per pair). Gibbs excluded by the property.",
+         "DESIGN.md §5 C08"),
  "C09": ("proptest histories of run() calls on user-defined counting chains (model = counter) under varying rayon pool sizes; twin-sampler differential checks for MH/Gibbs (continuation, burn-in suffix, manual stepping); HMC rows vs traced positions with injected randomness; NUTS rows vs transition trace, prefix consistency, multi-chain runner vs stand-alone chains",
          EXPL + "Counter chains make every entry of the returned array predictable exactly (chain id and transition count), for all (n_collect, n_discard) incl. 0 and for sequences of calls.",
          "HMC continuation is compared under injected momenta/uniforms so it is independent of the generator in use.",
          "DESIGN.md §5 C09"),
+ "C10": ("proptest progress-mode runs in watchdog-supervised child processes: user chains with speed profiles and 1..48 chains (counter model + RunStats oracle), identically seeded twins run vs run_progress for MH/Gibbs/HMC/NUTS in all {f32,f64}^2 precision combinations, run_chain_progress with the receiver dropped before/during/never",
+         EXPL + "Termination is observed under a per-case watchdog with confirm-by-rerun (a confirmed hang is the failing observation of this property); draws and diagnostics are compared bitwise.",
+         "Liveness is explored over generated completion orders, not proved; OS schedule not owned.",
+         "DESIGN.md §5 C10"),
  "C11": ("proptest sample arrays (structure generated, bulk from seeded PRNG) vs independent f64 split-R-hat reference; metamorphic relations (affine, permutation, cross-parameter bitwise, separation monotone/unbounded); NaN/summary fuzzing of basic_stats and RunStats",
          EXPL + "Covers odd lengths, the 100-row switch, multimodal/trending/constant chains, NaN summaries of every length 1..256.",
          "Within-half variance divisor (n or n-1) not fixed by the statement: both accepted; |loc|/scale <= 100; relative tolerance 1e-4*(1+|loc|/scale/10) calibrated on the pinned tree.",
@@ -34,6 +58,10 @@ CHECKS = {
          EXPL + "History-as-value: every prefix is an observation point, so off-by-one in n, n/(n-1), first-update handling and the R-hat denominators are visible for every parameter count.",
          "Tolerance eps32*(32+4n)*(loc^2+scale^2) (worst-case linear accumulation); R-hat compared where that is < 5% of W; first p_accept value unconstrained.",
          "DESIGN.md §5 C13"),
+ "C14": ("proptest histories on bounded-support / NaN-region targets: MH with injected u in (0,1) and wide proposals, HMC with step sizes up to overflow (injected and natural momenta), NUTS with forced step sizes up to overflow and real runs; oracle after every step: finite coordinates, finite closed-form log-density, bad candidates leave the state bitwise unchanged, no panic, returns (watchdog)",
+         EXPL + "Candidates are learnt from proposal clones / the trace hook, so 'the candidate was bad' is known exactly and the state must be bitwise the old one.",
+         "u = 0 excepted as the property says; NUTS work bounded by the harness's evaluation budget.",
+         "DESIGN.md §5 C14"),
  "C15": ("proptest means/SPD covariances/points/batches vs closed-form f64 densities and gradients (forward-error-bound tolerances); quadrature of exp(logp); seeded sample moments z-test",
          EXPL + "Closed forms are written from the documentation, gradients are analytic (no autodiff), and the proposal density is additionally integrated numerically, independent of the closed form.",
          "Tensor-based targets are compared at f32 accuracy (Tensor::from_floats stores f32 constants on every backend, as the property's domain says).",
